@@ -123,6 +123,7 @@ func runC02(c *Ctx, tier string) {
 	}
 	c.Floor("C02-K1", 60)
 	runTypedefLatestWins(c, "C02-K2")
+	runElisionEvidence(c, "C02-D1")
 }
 
 // ---------------------------------------------------------------- C03
@@ -226,6 +227,7 @@ func runC03(c *Ctx, tier string) {
 		}
 	}
 	runDictBoundAfterInsert(c, "C03-B1")
+	runBitmapWordCopies(c, "C03-N1")
 	// O1
 	if fn := p.Func("(*vng.Writer).finalize"); fn == nil {
 		c.Undecided("C03-O1", "(*vng.Writer).finalize", "anchor does not resolve")
